@@ -98,9 +98,10 @@ then `Route.url` called with those values (anonymous ones positionally, the othe
 returns a URL which the rule matches with the same values — provided every wildcard is stable
 where it stands (`AllStable`: the formatted value, followed by the URL built for the rest of
 the rule, is accepted by the wildcard's filter with the same value, consuming exactly the
-formatted text).  `AllStable` is the named assumption for `re`/`path`/`float` wildcards; for
+formatted text).  `AllStable` is the named assumption for user regular expressions (`re`); for
 plain and `int` wildcards it follows from `stable_plain_wildcard`/`stable_int_wildcard`
-(`stableAt_of_stable`). -/
+(`stableAt_of_stable`), for `path` and `float` wildcards see `stable_path_wildcard`,
+`stable_float_wildcard` and `url_rematch_builtin`. -/
 theorem url_rematch (env : FilterEnv) (fenv : FormatEnv) (r : Route)
     (hd : urlDomain r = true) (hsel : selFree r = true) (hst : AllStable env fenv r.syms)
     (path : Str) (vs : List Val) (hm : matchRule env r.syms path = some vs) :
@@ -141,9 +142,11 @@ theorem text_filter_keeps_head (env : FilterEnv) (fenv : FormatEnv) (g : Fid) (h
             matchRule env r.syms u = some vs
    It is FALSE on the current tree (section `Witness`: canonical `int` text `-0 -> 0` after a
    digit-eating wildcard; canonical `float` text `5 -> 5.0` next to a greedy `path` filter;
-   `float` overflow to `inf`), so it is proved in two parts: `url_rematch` keeps `AllStable` as
-   the per-wildcard hypothesis (exercised for `re`/`path`/`float` by the correspondence and the
-   search), `url_rematch_partial` discharges it for plain and `int` wildcards. -/
+   `float` overflow to `inf`), so it is proved in parts: `url_rematch` keeps `AllStable` as
+   the per-wildcard hypothesis (needed for user regular expressions, `re`, only);
+   `url_rematch_partial` discharges it for plain and `int` wildcards; `url_rematch_builtin` (section
+   `Builtin` below) discharges it for plain / `int` / `float` / `path` wildcards under decidable side
+   conditions which are exactly the shapes of the recorded findings. -/
 
 /-- **`url_rematch_partial`**: `url_rematch` without any hypothesis on filters, for rules whose
 wildcards are plain or `int` (decidable `plainIntOnly`) and in which no `int` wildcard directly
